@@ -123,7 +123,9 @@ where
             .set_pc(u16::from_le_bytes([tmp[0], tmp[1]]));
         let port_7ffd = tmp[2];
         let _trdos_paged = tmp[3];
-        // This will alsto setup required memory map before banks restore
+        // This will alsto setup required memory map before banks restore.
+        // Paging lock of the previous machine state must not block it
+        emulator.controller.unlock_paging();
         emulator.controller.write_7ffd(port_7ffd);
 
         // Go to the previous position
